@@ -168,6 +168,7 @@ type sysRun struct {
 	minWindowSteps  int   // fewest scheduler steps in any 1 s window of the last settle attempt
 	procsAtSettle   int   // size of the process table when that attempt began
 	sigQuiet        bool  // SIGINT/SIGTERM was delivered to fzf's handler while no child process was around
+	sigAt           time.Duration
 }
 
 // checkSpin: bounded liveness once the faults have stopped. Nothing external is pending (no key or
@@ -563,6 +564,7 @@ func (r *sysRun) user() {
 				}
 				if quiet {
 					r.sigQuiet = true
+					r.sigAt = now
 				}
 			}
 		case "hup":
@@ -760,6 +762,15 @@ func (r *sysRun) drive() bool {
 // finish forces termination (if still running) and collects the outcome.
 func (r *sysRun) finish() {
 	c := r.c
+	if r.sigQuiet {
+		// a command started right after the signal was sent (a key already on its way) may have begun before
+		// fzf got to look at the signal: then ignoring it is what fzf does during a command
+		for _, p := range r.os.Snapshot() {
+			if p.Started >= r.sigAt && p.Started-r.sigAt < 2*time.Second {
+				r.sigQuiet = false
+			}
+		}
+	}
 	if !r.done && r.became == "" && r.sigQuiet && !r.sigKilled {
 		c.violate("sys.signal_ignored", "SIGINT/SIGTERM was delivered while no command was running, the session came to rest, and fzf is still there; parked=%v\n%s", r.sim.Parked(), blockedStacks())
 	}
